@@ -294,7 +294,8 @@ def main(argv=None):
     violations = []
     harness_errors = []
     stop = lambda: (time.monotonic() - t0) > wall_budget or len(violations) >= 5 or len(harness_errors) >= 5
-    for idx0, r in parallel_map(items(), timeout=timeout * (1 + batch_n / 4.0), stop=stop):
+    nproc = plan.get("nproc")
+    for idx0, r in parallel_map(items(), nproc=nproc, timeout=timeout * (1 + batch_n / 4.0), stop=stop):
         if r.status != "ok":
             harness_errors.append((idx0, r.status, r.value))
             continue
@@ -308,7 +309,7 @@ def main(argv=None):
     # determinism re-check of a sample (same case, fresh forked child)
     recheck = [t for t in results if t[0] >= 0][: (ncases if args.selftest else plan.get("recheck", 3))]
     mismatches = []
-    for idx, r in parallel_map(((t[0], exec_case, (mod.__name__, t[1])) for t in recheck), timeout=timeout):
+    for idx, r in parallel_map(((t[0], exec_case, (mod.__name__, t[1])) for t in recheck), nproc=nproc, timeout=timeout):
         first = next(t for t in recheck if t[0] == idx)[2]
         if r.status != "ok" or r.value.get("digest") != first.get("digest"):
             mismatches.append(idx)
